@@ -20,7 +20,7 @@ func init() {
 		NotDecided: []string{"races that involve only atomics used inconsistently (atomic fields are assumed race-free by construction)", "races in user-supplied callbacks, loggers, metrics and health checkers", "the race detector's runtime verdict (not a static notion)"},
 		Assumptions: []string{"objects are identified by type", "sync.Once.Do orders the initialisation before every later read in a function that called Do"},
 		Rules: map[string]string{
-			"R1": "for each field with a write outside the allocating function: the intersection over all its accesses (anywhere in the library, constructor excluded) of the must-lockset is non-empty, with write mode at writes",
+			"R1": "types all of whose objects are locals handed on only as receiver / argument of ordinary library calls (never stored, captured, sent, converted to an interface or given to a go statement) are goroutine-confined and skipped; for each field with a write outside the allocating function: the intersection over all its accesses (anywhere in the library, constructor excluded) of the must-lockset is non-empty, with write mode at writes",
 			"R2": "fields without such writes are init-only (reported as OK with the count of reads)",
 			"R4": "no append whose first operand is a slice loaded from a field of a shared object (election, handler, monitor, adapter) unless that operand was re-sliced with a capacity limit (s[:n:n]) first: append writes into the shared backing array when it has spare capacity, from whichever goroutine gets there",
 			"R3": "if the intersection is empty although every access holds some mutex, the field is guarded by different mutexes in different places",
@@ -78,6 +78,48 @@ func checkC20(c *Ctx) {
 			}
 		})
 	}
+	// a type every object of which is a local of one function activation that is handed on only as
+	// the receiver / argument of ordinary calls (never stored, captured, sent or given to a go
+	// statement) is confined to the goroutine that allocated it: its fields are not shared
+	confined := map[*types.Named]bool{}
+	{
+		allocsOf := map[*types.Named][]*ssa.Alloc{}
+		makes := map[*types.Named]bool{} // objects that arise otherwise (results of calls are covered by their own Alloc)
+		for _, f := range m.Funcs {
+			eachInstr(f, func(in ssa.Instruction) {
+				if al, ok := in.(*ssa.Alloc); ok {
+					if n := namedOf(al.Type()); n != nil && isShared[n] {
+						allocsOf[n] = append(allocsOf[n], al)
+					}
+				}
+				// a pointer to the type read from memory or received: it was stored somewhere
+				if v, ok := in.(ssa.Value); ok {
+					if _, isAl := in.(*ssa.Alloc); !isAl {
+						if pt, ok := v.Type().Underlying().(*types.Pointer); ok {
+							if n := namedOf(pt.Elem()); n != nil && isShared[n] {
+								switch in.(type) {
+								case *ssa.UnOp, *ssa.Extract, *ssa.Phi, *ssa.TypeAssert, *ssa.Lookup, *ssa.Index, *ssa.Field:
+									makes[n] = true
+								}
+							}
+						}
+					}
+				}
+			})
+		}
+		for n, als := range allocsOf {
+			if makes[n] || n == m.Impl {
+				continue
+			}
+			ok := true
+			for _, al := range als {
+				if !confinedPtr(m, al, map[ssa.Value]bool{}, 0) {
+					ok = false
+				}
+			}
+			confined[n] = ok
+		}
+	}
 	for _, f := range m.Funcs {
 		eachInstr(f, func(in ssa.Instruction) {
 			fa, ok := in.(*ssa.FieldAddr)
@@ -85,7 +127,7 @@ func checkC20(c *Ctx) {
 				return
 			}
 			n := namedOf(fa.X.Type())
-			if n == nil || !isShared[n] {
+			if n == nil || !isShared[n] || confined[n] {
 				return
 			}
 			st := n.Underlying().(*types.Struct)
@@ -349,4 +391,63 @@ func sharedSliceAppendRule(c *Ctx, rule string) {
 		})
 	}
 	c.ok(rule, "no append to a slice held in a shared object", nil, "%d append calls examined outside the constructor", n)
+}
+
+// confinedPtr: the pointer v (a local object or a parameter holding one) is used only for field
+// accesses and as an argument of ordinary calls of library functions that use it the same way.
+func confinedPtr(m *Model, v ssa.Value, seen map[ssa.Value]bool, depth int) bool {
+	if seen[v] {
+		return true
+	}
+	seen[v] = true
+	if depth > 6 {
+		return false
+	}
+	refs := v.Referrers()
+	if refs == nil {
+		return true
+	}
+	for _, r := range *refs {
+		switch x := r.(type) {
+		case *ssa.DebugRef:
+		case *ssa.FieldAddr:
+			if x.X != v {
+				return false
+			}
+			if frefs := x.Referrers(); frefs != nil {
+				for _, fr := range *frefs {
+					switch y := fr.(type) {
+					case *ssa.Store:
+						if y.Addr != ssa.Value(x) {
+							return false
+						}
+					case *ssa.UnOp, *ssa.DebugRef:
+					default:
+						return false
+					}
+				}
+			}
+		case *ssa.Store:
+			if x.Addr != v {
+				return false // the pointer itself is stored somewhere
+			}
+		case *ssa.UnOp:
+			// a copy of the whole value
+		case *ssa.Call:
+			callee := x.Call.StaticCallee()
+			if callee == nil || !m.isLib(callee) || callee.Blocks == nil || x.Call.IsInvoke() {
+				return false
+			}
+			for ai, a := range x.Call.Args {
+				if a == v {
+					if ai >= len(callee.Params) || !confinedPtr(m, callee.Params[ai], seen, depth+1) {
+						return false
+					}
+				}
+			}
+		default:
+			return false // go, defer, closure capture, phi, send, conversion to an interface ...
+		}
+	}
+	return true
 }
